@@ -470,6 +470,8 @@ def path_conditions(fi: FuncInfo, node: ast.AST) -> list[tuple[ast.AST, bool]]:
         if len(subs) != 1 or calls:
             return None
         key, mapping = subs[0].slice, subs[0].value
+        if norm_text(mapping).rsplit('.', 1)[-1] in ('dataset', 'ds', 'new_dataset'):
+            return None     # Dataset.__getitem__ also answers for a bare dimension: not a membership test
         return ast.fix_missing_locations(ast.copy_location(ast.Compare(left=key, ops=[ast.In()], comparators=[mapping]), st))
 
     def rec(stmts) -> bool:
